@@ -3,4 +3,4 @@ import Driver.Ops.C04
 import Driver.Ops.C05
 /- pvdrv-C05: model driver for property C05 (graph figures under a kept set come from the C04
    operations; the node selection of text reports from Driver.Ops.C05). -/
-def main : IO Unit := Driver.run (Driver.C04.ops ++ Driver.C05.ops)
+def main : IO Unit := Driver.run (Driver.C04.ops ++ Driver.C05.ops ++ Driver.C05.opsTree)
